@@ -51,5 +51,10 @@ json.dump({
  "our_check": {"cmd": f"IREF_REPO=<patched tree> ./check {prop} quick", "exit": int(rc), "caught": int(rc)==1, "oracle": oracle, "op": op}
 }, open(path,"w"), indent=1)
 EOF
+# the minimised replay of a caught change becomes a regression corpus entry (re-run first by every check)
+rp=$(echo "$out" | sed -n 's/^VIOLATION property=[A-Z0-9]* replay=//p' | head -1)
+if [ $rc -eq 1 ] && [ -f "$rp" ]; then
+	cp "$rp" "$VERIF/corpus/$PROP-seeded-${NAME#$PROP-}.json"
+fi
 rm -f "$VERIF"/replays/*.json
 echo "filed under seeded/$NAME (caught=$([ $rc -eq 1 ] && echo yes || echo NO))"
